@@ -209,7 +209,9 @@ def cr_mixed_match(segs, got, enc="utf-8"):
         if kind == "text":
             parts.append(re.escape(b.decode(enc)))
         elif kind == "nl":
-            parts.append({b"\n": "\n", b"\r\n": "(?:\r\n|\n)", b"\r": "[\r\n]"}[b])
+            # a CR LF pair whose CR ends one piece and whose LF starts the next is the same defect: the CR is converted on its
+            # own, the LF follows -> two newlines
+            parts.append({b"\n": "\n", b"\r\n": "(?:\r\n|\n\n|\n)", b"\r": "[\r\n]"}[b])
         elif kind == "bin":
             return False
     rx = "".join(parts)
@@ -789,7 +791,9 @@ def check_case(case):
                         fixed = None
                     if fixed is not None and fixed != got and match_text(segs, fixed) is None:
                         problems.append(("split-char", "%s view: a multi-byte character split between two reads was decoded per chunk: %s" % (kind, why)))
-                    elif any(k == "nl" and b == b"\r" for k, b in segs) and cr_mixed_match(segs, got):
+                    elif any(k == "nl" and b in (b"\r", b"\r\n") for k, b in segs) and (
+                            cr_mixed_match(segs, got) or (fixed is not None and cr_mixed_match(segs, fixed))):
+                        # (also when the split-character defect shows in the same capture: both are recorded)
                         problems.append(("cr-inconsistent", "%s view: lone CRs are normalised per occurrence (depending on where the reads fall), not uniformly: %s" % (kind, why)))
                     else:
                         problems.append(("text-differs", "%s view does not match the payload under any consistent reading: %s" % (kind, why)))
